@@ -7,7 +7,10 @@
 (* only own policy entries).                                                *)
 EXTENDS Authz, TLC
 
-CONSTANTS Callers, PolicyClients, DeepReload, LenSet
+CONSTANTS Callers, PolicyClients, DeepReload, LenSet,
+          Canon     \* TRUE (quick design check): start-situation dimensions that the method of the first call never
+                    \* reads are held at one value (group membership for non-group methods, the stored cursor
+                    \* for methods other than SetCursor / FetchCursor); FALSE: the full product
 VARIABLES last, phase
 mcvars == <<vars, last, phase>>
 
@@ -57,7 +60,9 @@ MCInit ==
   /\ last = [a |-> "Open"] /\ phase = 0
 
 MCCall(call) ==
-  /\ \/ phase = 0 /\ phase' = 1
+  /\ \/ /\ phase = 0 /\ phase' = 1
+        /\ Canon => /\ (call.m \notin GroupMethods => members = {"owner"})
+                    /\ (call.m \notin {"SetCursor", "FetchCursor"} => cursors["s1"] = -1)
      \/ phase = 2 /\ call = last.call /\ phase' = 5      \* edited, not yet reloaded: the loaded policy still decides
      \/ phase = 3 /\ call = last.call /\ phase' = 4
   /\ (call.s = CursorsStream) => (call.m \in HarmlessOnSys \/ Unauthorised(EffPolicy, call))
@@ -84,6 +89,7 @@ MCOther(call) ==
   /\ call.c \in Callers /\ call.c # last.call.c /\ call.s \in UserStreams \ {last.call.s}
   /\ last.call.s \in UserStreams /\ last.call.cred = "verified"
   /\ call = [last.call EXCEPT !.c = call.c, !.s = call.s]
+  /\ call.m \notin GroupMethods      \* their resource is the one group, whatever stream the request names
   /\ DoCall(call)
   /\ last' = [a |-> "Call", call |-> call]
 
@@ -110,12 +116,10 @@ MCNext ==
 
 MCSpec == MCInit /\ [][MCNext]_mcvars
 
-\* known, recorded finding (kept out of the design check so that the rest of the space is explored; it is
-\* reported from real-code traces): the consumer-group methods make no authorisation check at all
-Tainted(call) == ~GroupAuthz /\ call.m \in GroupMethods
+\* (GroupAuthz = FALSE is the pinned variant of the group handlers: TLC then reports the unauthorised group call)
 StepOK ==
   LET a == last' IN
-  CASE a.a = "Call" -> Tainted(a.call) \/ P_Call(a.call)
+  CASE a.a = "Call" -> P_Call(a.call)
     [] a.a = "EditPolicy" -> P_Edit
     [] a.a = "Reload" -> P_Reload
     [] a.a = "BreakFile" -> P_Edit
